@@ -1,6 +1,6 @@
 (* C17: printing a lexically valid constant value and reading the text back (lexer + parser)
    yields the value:  value_ok v -> parse_text (print_value v) = POk v []. *)
-From Coq Require Import Lia Arith PeanoNat ZifyN ZifyNat ZifyBool.
+From Coq Require Import Lia Arith PeanoNat ZifyN ZifyNat ZifyBool String.
 From Gv Require Import lib.Bytes lib.Gql C17.Util C17.ValueSyntax C17.Base C17.Model C17.Spec C17.ProofsBase.
 Open Scope N_scope.
 
@@ -201,15 +201,24 @@ Proof. reflexivity. Qed.
 Definition num_toks (mk : bytes -> tok) (raw : bytes) : list tok :=
   match raw with 45 :: r => [TSub; mk r] | _ => [mk raw] end.
 
+Lemma strip_sign_other : forall x t, x <> 45 -> strip_sign (x :: t) = x :: t.
+Proof.
+  intros x t H. unfold strip_sign. destruct x as [|p]; auto.
+  do 6 (try (destruct p as [p|p|]; auto)). exfalso. apply H. reflexivity.
+Qed.
+Lemma num_toks_other : forall mk x t, x <> 45 -> num_toks mk (x :: t) = [mk (x :: t)].
+Proof.
+  intros mk x t H. unfold num_toks. destruct x as [|p]; auto.
+  do 6 (try (destruct p as [p|p|]; auto)). exfalso. apply H. reflexivity.
+Qed.
+
 Lemma strip_sign_digit : forall raw c r, strip_sign raw = c :: r -> is_digit c = true ->
   (raw = c :: r) \/ (raw = 45 :: c :: r).
 Proof.
-  intros raw c r H D. destruct raw as [|x t]; simpl in H; try discriminate.
+  intros raw c r H D. destruct raw as [|x t]. { simpl in H. discriminate. }
   destruct (N.eqb_spec x 45).
-  - subst. simpl in H. right. congruence.
-  - left. assert (strip_sign (x :: t) = x :: t).
-    { unfold strip_sign. destruct x; auto. repeat (destruct p; auto). }
-    rewrite H0 in H. auto.
+  - subst x. simpl in H. right. rewrite H. reflexivity.
+  - left. rewrite strip_sign_other in H; auto.
 Qed.
 
 Lemma lex_int : forall raw rest, int_ok raw = true -> follow_ok rest ->
@@ -220,11 +229,9 @@ Proof.
   assert (D : is_digit c = true). { apply andb_true_iff in H. tauto. }
   destruct (strip_sign_digit _ _ _ E D) as [R|R]; subst raw.
   - assert (c <> 45). { apply digit_range in D. lia. }
-    unfold num_toks. destruct (N.eqb_spec c 45); try contradiction.
-    replace (match c with 45 => _ | _ => [TInt (c :: r)] end) with [TInt (c :: r)].
-    2:{ destruct c; auto. repeat (destruct p; auto); contradiction. }
-    simpl app at 2. apply lex_digits; auto.
-  - simpl. rewrite lex_minus. f_equal. apply (lex_digits (c :: r)); auto.
+    rewrite num_toks_other by auto. simpl app at 2. apply lex_digits; auto.
+  - change (num_toks TInt (45 :: c :: r)) with [TSub; TInt (c :: r)].
+    rewrite <- app_comm_cons, lex_minus. cbn [app]. f_equal. apply (lex_digits (c :: r)); auto.
 Qed.
 
 Lemma lex_float : forall raw rest, float_ok raw = true -> follow_ok rest ->
@@ -249,11 +256,9 @@ Proof.
     - apply follow_ends; auto. apply follow_key; auto. }
   destruct (strip_sign_digit _ _ _ E D) as [R|R]; subst raw.
   - assert (c <> 45). { apply digit_range in D. lia. }
-    unfold num_toks.
-    replace (match c with 45 => _ | _ => [TFloat (c :: r)] end) with [TFloat (c :: r)].
-    2:{ destruct c; auto. repeat (destruct p; auto); contradiction. }
-    simpl app at 2. apply Core. auto.
-  - simpl. rewrite lex_minus. f_equal. apply Core. auto.
+    rewrite num_toks_other by auto. simpl app at 2. apply Core. auto.
+  - change (num_toks TFloat (45 :: c :: r)) with [TSub; TFloat (c :: r)].
+    rewrite <- app_comm_cons, lex_minus. cbn [app]. f_equal. apply (Core LSigil). auto.
 Qed.
 
 (* ------------------------------------------------------------------ strings *)
@@ -269,8 +274,7 @@ Proof.
   change (lex_go LStart (34 :: raw ++ 34 :: rest)) with (lex_go LQ1 (raw ++ 34 :: rest)).
   destruct raw as [|c r].
   - simpl. destruct rest as [|d s]; auto. simpl in F.
-    assert (d =? 34 = false). { apply N.eqb_neq. lia. }
-    rewrite H0. auto.
+    destruct F as [F|[F|F]]; subst d; reflexivity.
   - assert (C : c =? 34 = false).
     { simpl in Q. destruct ((c =? 32) || (c =? 9)) eqn:E1.
       - apply orb_true_iff in E1. apply N.eqb_neq. destruct E1 as [E1|E1]; apply N.eqb_eq in E1; lia.
@@ -278,7 +282,7 @@ Proof.
     assert (E : lex_go LQ1 ((c :: r) ++ 34 :: rest) = lex_go (LStr [] false) ((c :: r) ++ 34 :: rest)).
     { simpl. rewrite C. auto. }
     rewrite E, (quiet_run_ok _ _ _ Q). simpl. unfold str_step. simpl.
-    rewrite rev_involutive. auto.
+    rewrite rev_app_distr, rev_involutive. auto.
 Qed.
 
 Lemma firstn_all_sub : forall {A} (l : list A), firstn (length l - 0) l = l.
@@ -341,46 +345,248 @@ Lemma follow_93 : forall r, follow_ok (93 :: r). Proof. simpl. auto. Qed.
 Lemma follow_125 : forall r, follow_ok (125 :: r). Proof. simpl. auto. Qed.
 Lemma follow_44 : forall r, follow_ok (44 :: r). Proof. simpl. auto. Qed.
 
-Theorem lex_print : forall v, value_ok v = true -> forall rest, follow_ok rest ->
+Lemma lex_lbrack : forall s, lex_go LStart (91 :: s) = TLBrack :: lex_go LStart s. Proof. reflexivity. Qed.
+Lemma lex_rbrack : forall s, lex_go LStart (93 :: s) = TRBrack :: lex_go LStart s. Proof. reflexivity. Qed.
+Lemma lex_lbrace : forall s, lex_go LStart (123 :: s) = TLBrace :: lex_go LStart s. Proof. reflexivity. Qed.
+Lemma lex_rbrace : forall s, lex_go LStart (125 :: s) = TRBrace :: lex_go LStart s. Proof. reflexivity. Qed.
+Lemma lex_comma : forall s, lex_go LStart (44 :: s) = lex_go LStart s. Proof. reflexivity. Qed.
+Lemma lex_colon_space : forall s, lex_go LStart (58 :: 32 :: s) = TColon :: lex_go LStart s. Proof. reflexivity. Qed.
+
+Definition lex_print_at (v : value) : Prop :=
+  value_ok v = true -> forall rest, follow_ok rest ->
   lex_go LStart (print_value v ++ rest) = toks v ++ lex_go LStart rest.
+
+Lemma list_text_cons : forall x l,
+  list_text (x :: l) = print_value x ++ match l with [] => [] | _ => 44 :: list_text l end.
+Proof. reflexivity. Qed.
+Lemma list_toks_cons : forall x l, list_toks (x :: l) = toks x ++ list_toks l.
+Proof. reflexivity. Qed.
+Lemma obj_text_cons : forall k x l,
+  obj_text ((k, x) :: l) = k ++ 58 :: 32 :: print_value x ++ match l with [] => [] | _ => 44 :: obj_text l end.
+Proof. reflexivity. Qed.
+Lemma obj_toks_cons : forall k x l, obj_toks ((k, x) :: l) = TIdent k :: TColon :: toks x ++ obj_toks l.
+Proof. reflexivity. Qed.
+
+Lemma lex_list_items : forall l, Forall lex_print_at l -> forallb value_ok l = true -> forall rest,
+  lex_go LStart (list_text l ++ 93 :: rest) = list_toks l ++ TRBrack :: lex_go LStart rest.
 Proof.
+  induction 1; intros OK rest.
+  - cbn [list_text list_toks app]. apply lex_rbrack.
+  - cbn [forallb] in OK. apply andb_true_iff in OK. destruct OK as [O1 O2].
+    rewrite list_text_cons, list_toks_cons, <- !app_assoc. destruct l as [|y l'].
+    + cbn [app list_toks]. rewrite (H O1); [|apply follow_93]. rewrite lex_rbrack. auto.
+    + rewrite (H O1); [|apply follow_44]. f_equal. rewrite <- app_comm_cons, lex_comma. apply IHForall. auto.
+Qed.
+
+Lemma obj_ok_cons : forall k v l,
+  (fix go (l : list (name * value)) : bool :=
+     match l with [] => true | (k, x) :: r => name_ok k && value_ok x && go r end) ((k, v) :: l) = true ->
+  name_ok k = true /\ value_ok v = true /\
+  (fix go (l : list (name * value)) : bool :=
+     match l with [] => true | (k, x) :: r => name_ok k && value_ok x && go r end) l = true.
+Proof.
+  intros k v l H. apply andb_true_iff in H. destruct H as [H H3]. apply andb_true_iff in H. tauto.
+Qed.
+
+Lemma lex_obj_items : forall l, Forall (fun kv => lex_print_at (snd kv)) l ->
+  (fix go (l : list (name * value)) : bool :=
+     match l with [] => true | (k, x) :: r => name_ok k && value_ok x && go r end) l = true ->
+  forall rest,
+  lex_go LStart (obj_text l ++ 125 :: rest) = obj_toks l ++ TRBrace :: lex_go LStart rest.
+Proof.
+  induction 1; intros OK rest.
+  - cbn [obj_text obj_toks app]. apply lex_rbrace.
+  - destruct x as [k v]. apply obj_ok_cons in OK. destruct OK as [O1 [O2 O3]]. cbn [snd] in H.
+    rewrite obj_text_cons, obj_toks_cons, <- !app_assoc.
+    rewrite (lex_name k _ LStart); auto. 2:{ cbn. auto. }
+    rewrite <- !app_comm_cons, lex_colon_space. f_equal. f_equal. rewrite <- !app_assoc.
+    destruct l as [|y l'].
+    + cbn [app obj_toks]. rewrite (H O2); [|apply follow_125]. rewrite lex_rbrace. auto.
+    + rewrite (H O2); [|apply follow_44]. f_equal. rewrite <- app_comm_cons, lex_comma. apply IHForall. auto.
+Qed.
+
+Theorem lex_print : forall v, lex_print_at v.
+Proof.
+  unfold lex_print_at.
   induction v using value_ind'; intros OK rest F; simpl in OK; try discriminate.
   - apply lex_int; auto.
   - apply lex_float; auto.
-  - destruct bl; simpl.
-    + rewrite <- app_assoc. simpl. apply lex_block. auto.
-    + rewrite <- app_assoc. simpl. apply lex_str; auto.
-  - destruct x; simpl; apply (lex_name _ rest LStart); auto; apply follow_key; auto.
-  - simpl. apply (lex_name _ rest LStart); auto. apply follow_key; auto.
-  - simpl. apply andb_true_iff in OK. destruct OK as [OK _]. apply (lex_name n rest LStart); auto. apply follow_key; auto.
-  - (* list *)
-    change (print_value (VList l)) with (91 :: list_text l ++ [93]).
+  - destruct bl; cbn [print_value toks].
+    + rewrite <- !app_comm_cons, <- app_assoc. cbn [app]. apply lex_block. auto.
+    + rewrite <- !app_comm_cons, <- app_assoc. cbn [app]. apply lex_str; auto.
+  - destruct x; [apply (lex_name #"true" rest LStart) | apply (lex_name #"false" rest LStart)]; auto; apply follow_key; auto.
+  - apply (lex_name #"null" rest LStart); auto. apply follow_key; auto.
+  - apply andb_true_iff in OK. destruct OK as [OK _]. apply (lex_name n rest LStart); auto. apply follow_key; auto.
+  - change (print_value (VList l)) with (91 :: list_text l ++ [93]).
     change (toks (VList l)) with (TLBrack :: list_toks l ++ [TRBrack]).
-    simpl. f_equal. rewrite <- !app_assoc. simpl.
-    revert OK. induction H; intro OK.
-    + simpl. auto.
-    + simpl in OK. apply andb_true_iff in OK. destruct OK as [O1 O2].
-      change (list_text (x :: l)) with (print_value x ++ match l with [] => [] | _ => 44 :: list_text l end).
-      change (list_toks (x :: l)) with (toks x ++ list_toks l).
-      rewrite <- !app_assoc. destruct l as [|y l'].
-      * simpl. rewrite H; auto. apply follow_93.
-      * rewrite H; auto. 2: apply follow_44. f_equal.
-        change (lex_go LStart ((44 :: list_text (y :: l')) ++ 93 :: rest)) with (lex_go LStart (list_text (y :: l') ++ 93 :: rest)).
-        apply IHForall. auto.
-  - (* object *)
-    change (print_value (VObj fs)) with (123 :: obj_text fs ++ [125]).
+    rewrite <- !app_comm_cons, lex_lbrack, <- !app_assoc. cbn [app]. f_equal.
+    apply lex_list_items; auto.
+  - change (print_value (VObj fs)) with (123 :: obj_text fs ++ [125]).
     change (toks (VObj fs)) with (TLBrace :: obj_toks fs ++ [TRBrace]).
-    simpl. f_equal. rewrite <- !app_assoc. simpl.
+    rewrite <- !app_comm_cons, lex_lbrace, <- !app_assoc. cbn [app]. f_equal.
+    apply lex_obj_items; auto.
+Qed.
+
+(* ------------------------------------------------------------------ parser *)
+Fixpoint vsize (v : value) : nat :=
+  match v with
+  | VList l => 2 + (fix go (l : list value) : nat := match l with [] => 0 | x :: r => 1 + vsize x + go r end) l
+  | VObj fs => 2 + (fix go (l : list (name * value)) : nat := match l with [] => 0 | (_, x) :: r => 1 + vsize x + go r end) fs
+  | _ => 1
+  end%nat.
+Definition list_size (l : list value) : nat :=
+  (fix go (l : list value) : nat := match l with [] => 0 | x :: r => 1 + vsize x + go r end)%nat l.
+Definition obj_size (l : list (name * value)) : nat :=
+  (fix go (l : list (name * value)) : nat := match l with [] => 0 | (_, x) :: r => 1 + vsize x + go r end)%nat l.
+
+Definition parse_at (v : value) : Prop :=
+  value_ok v = true -> forall fuel rest, (fuel >= vsize v)%nat -> parse_value fuel (toks v ++ rest) = POk v rest.
+
+Lemma toks_head : forall v, value_ok v = true -> exists t r, toks v = t :: r /\ t <> TRBrack.
+Proof.
+  destruct v; simpl; intro H; try discriminate.
+  - unfold num_toks. destruct raw as [|c r]; [eexists; eexists; split; [reflexivity|congruence]|].
+    destruct c as [|p]; [eexists; eexists; split; [reflexivity|congruence]|].
+    do 6 (try (destruct p as [p|p|])); eexists; eexists; (split; [reflexivity|congruence]).
+  - unfold num_toks. destruct raw as [|c r]; [eexists; eexists; split; [reflexivity|congruence]|].
+    destruct c as [|p]; [eexists; eexists; split; [reflexivity|congruence]|].
+    do 6 (try (destruct p as [p|p|])); eexists; eexists; (split; [reflexivity|congruence]).
+  - eexists; eexists; split; [reflexivity|congruence].
+  - destruct b; eexists; eexists; (split; [reflexivity|congruence]).
+  - eexists; eexists; split; [reflexivity|congruence].
+  - eexists; eexists; split; [reflexivity|congruence].
+  - eexists; eexists; split; [reflexivity|congruence].
+  - eexists; eexists; split; [reflexivity|congruence].
+Qed.
+
+Lemma parse_list_step : forall f ts acc, (forall r, ts <> TRBrack :: r) ->
+  parse_list (S f) ts acc =
+  match parse_value f ts with POk v r => parse_list f r (v :: acc) | PErr => PErr | PFuel => PFuel end.
+Proof.
+  intros f ts acc H. destruct ts as [|t r]; [reflexivity|].
+  destruct t; try reflexivity. exfalso. eapply H. eauto.
+Qed.
+
+Lemma parse_list_items : forall l, Forall parse_at l -> forallb value_ok l = true ->
+  forall f acc rest, (f >= 1 + list_size l)%nat ->
+  parse_list f (list_toks l ++ TRBrack :: rest) acc = POk (VList (rev acc ++ l)) rest.
+Proof.
+  induction 1; intros OK f acc rest Hf.
+  - cbn [list_toks app]. destruct f; [cbn in Hf; lia|]. cbn. rewrite app_nil_r. auto.
+  - cbn [forallb] in OK. apply andb_true_iff in OK. destruct OK as [O1 O2].
+    change (list_size (x :: l)) with (1 + vsize x + list_size l)%nat in Hf.
+    destruct f; [lia|]. rewrite list_toks_cons, <- app_assoc.
+    rewrite parse_list_step.
+    + rewrite (H O1) by lia. rewrite IHForall by (auto; lia). cbn [rev]. rewrite <- app_assoc. auto.
+    + intros r E. destruct (toks_head x O1) as [t [r' [T N]]]. rewrite T in E. cbn in E. congruence.
+Qed.
+
+Lemma parse_obj_items : forall l, Forall (fun kv => parse_at (snd kv)) l ->
+  (fix go (l : list (name * value)) : bool :=
+     match l with [] => true | (k, x) :: r => name_ok k && value_ok x && go r end) l = true ->
+  forall f acc rest, (f >= 1 + obj_size l)%nat ->
+  parse_obj f (obj_toks l ++ TRBrace :: rest) acc = POk (VObj (rev acc ++ l)) rest.
+Proof.
+  induction 1; intros OK f acc rest Hf.
+  - cbn [obj_toks app]. destruct f; [cbn in Hf; lia|]. cbn. rewrite app_nil_r. auto.
+  - destruct x as [k v]. apply obj_ok_cons in OK. destruct OK as [O1 [O2 O3]]. cbn [snd] in H.
+    change (obj_size ((k, v) :: l)) with (1 + vsize v + obj_size l)%nat in Hf.
+    destruct f; [lia|]. rewrite obj_toks_cons.
+    change (parse_obj (S f) ((TIdent k :: TColon :: toks v ++ obj_toks l) ++ TRBrace :: rest) acc)
+      with (match parse_value f ((toks v ++ obj_toks l) ++ TRBrace :: rest) with
+            | POk v0 r' => parse_obj f r' ((k, v0) :: acc) | PErr => PErr | PFuel => PFuel end).
+    rewrite <- app_assoc. rewrite (H O2) by lia. rewrite IHForall by (auto; lia).
+    cbn [rev]. rewrite <- app_assoc. auto.
+Qed.
+
+Lemma ident_value_enum : forall n, is_keyword_name n = false -> ident_value n = VEnum n.
+Proof.
+  intros n H. unfold is_keyword_name in H. unfold ident_value.
+  apply orb_false_iff in H. destruct H as [H H3]. apply orb_false_iff in H. destruct H as [H1 H2].
+  rewrite H1, H2, H3. auto.
+Qed.
+
+Lemma parse_num : forall (mk : bytes -> tok) (mkv : bytes -> value) raw c r f rest,
+  strip_sign raw = c :: r -> is_digit c = true ->
+  (forall x y, parse_value (S f) (mk x :: y) = POk (mkv x) y) ->
+  (forall x y, parse_value (S f) (TSub :: mk x :: y) = POk (mkv (45 :: x)) y) ->
+  parse_value (S f) (num_toks mk raw ++ rest) = POk (mkv raw) rest.
+Proof.
+  intros mk mkv raw c r f rest E D P1 P2.
+  destruct (strip_sign_digit _ _ _ E D) as [R|R]; subst raw.
+  - assert (c <> 45). { apply digit_range in D. lia. }
+    rewrite num_toks_other by auto. apply P1.
+  - change (num_toks mk (45 :: c :: r)) with [TSub; mk (c :: r)]. apply P2.
+Qed.
+
+Theorem parse_toks : forall v, parse_at v.
+Proof.
+  unfold parse_at.
+  induction v using value_ind'; intros OK fuel rest Hf; simpl in OK; try discriminate;
+    (destruct fuel as [|f]; [cbn in Hf; lia|]).
+  - unfold int_ok in OK. destruct (strip_sign r) as [|c r'] eqn:E; [discriminate|].
+    cbn in OK. apply andb_true_iff in OK. destruct OK as [D _].
+    cbn [toks]. eapply (parse_num TInt VInt); eauto.
+  - unfold float_ok in OK. destruct (strip_sign r) as [|c r'] eqn:E; [discriminate|].
+    apply andb_true_iff in OK. destruct OK as [D _].
+    cbn [toks]. eapply (parse_num TFloat VFloat); eauto.
+  - reflexivity.
+  - destruct x; reflexivity.
+  - reflexivity.
+  - apply andb_true_iff in OK. destruct OK as [_ K]. apply negb_true_iff in K.
+    cbn [toks app parse_value]. rewrite ident_value_enum; auto.
+  - change (toks (VList l)) with (TLBrack :: list_toks l ++ [TRBrack]).
+    change (vsize (VList l)) with (2 + list_size l)%nat in Hf.
+    rewrite <- app_comm_cons, <- app_assoc. cbn [app].
+    change (parse_value (S f) (TLBrack :: list_toks l ++ TRBrack :: rest))
+      with (parse_list f (list_toks l ++ TRBrack :: rest) []).
+    rewrite parse_list_items; auto. lia.
+  - change (toks (VObj fs)) with (TLBrace :: obj_toks fs ++ [TRBrace]).
+    change (vsize (VObj fs)) with (2 + obj_size fs)%nat in Hf.
+    rewrite <- app_comm_cons, <- app_assoc. cbn [app].
+    change (parse_value (S f) (TLBrace :: obj_toks fs ++ TRBrace :: rest))
+      with (parse_obj f (obj_toks fs ++ TRBrace :: rest) []).
+    rewrite parse_obj_items; auto. lia.
+Qed.
+
+(* fuel of parse_text: vsize v <= 2 * |toks v| - 1 *)
+Lemma toks_len_pos : forall v, value_ok v = true -> (1 <= length (toks v))%nat.
+Proof. intros v H. destruct (toks_head v H) as [t [r [E _]]]. rewrite E. cbn. lia. Qed.
+
+Lemma vsize_bound : forall v, value_ok v = true -> (vsize v + 1 <= 2 * length (toks v))%nat.
+Proof.
+  induction v using value_ind'; intro OK; simpl in OK; try discriminate.
+  - pose proof (toks_len_pos (VInt r) OK). cbn [vsize]. lia.
+  - pose proof (toks_len_pos (VFloat r) OK). cbn [vsize]. lia.
+  - cbn. lia.
+  - destruct x; cbn; lia.
+  - cbn. lia.
+  - cbn. lia.
+  - change (toks (VList l)) with (TLBrack :: list_toks l ++ [TRBrack]).
+    change (vsize (VList l)) with (2 + list_size l)%nat.
+    cbn [length]. rewrite app_length. cbn [length].
+    assert (list_size l <= 2 * length (list_toks l))%nat; [|lia].
     revert OK. induction H; intro OK.
-    + simpl. auto.
-    + destruct x as [k v]. simpl in H.
-      apply andb_true_iff in OK. destruct OK as [O1 O3]. apply andb_true_iff in O1. destruct O1 as [O1 O2].
-      change (obj_text ((k, v) :: l)) with (k ++ 58 :: 32 :: print_value v ++ match l with [] => [] | _ => 44 :: obj_text l end).
-      change (obj_toks ((k, v) :: l)) with (TIdent k :: TColon :: toks v ++ obj_toks l).
-      rewrite <- !app_assoc. rewrite (lex_name k _ LStart); auto. 2:{ simpl. auto. }
-      simpl. f_equal. f_equal. rewrite <- !app_assoc. destruct l as [|y l'].
-      * simpl. rewrite H; auto. apply follow_125.
-      * rewrite H; auto. 2: apply follow_44. f_equal.
-        change (lex_go LStart ((44 :: obj_text (y :: l')) ++ 125 :: rest)) with (lex_go LStart (obj_text (y :: l') ++ 125 :: rest)).
-        apply IHForall. auto.
+    + cbn. lia.
+    + cbn [forallb] in OK. apply andb_true_iff in OK. destruct OK as [O1 O2].
+      change (list_size (x :: l)) with (1 + vsize x + list_size l)%nat.
+      rewrite list_toks_cons, app_length. specialize (H O1). specialize (IHForall O2). lia.
+  - change (toks (VObj fs)) with (TLBrace :: obj_toks fs ++ [TRBrace]).
+    change (vsize (VObj fs)) with (2 + obj_size fs)%nat.
+    cbn [length]. rewrite app_length. cbn [length].
+    assert (obj_size fs <= 2 * length (obj_toks fs))%nat; [|lia].
+    revert OK. induction H; intro OK.
+    + cbn. lia.
+    + destruct x as [k v]. apply obj_ok_cons in OK. destruct OK as [O1 [O2 O3]]. cbn [snd] in H.
+      change (obj_size ((k, v) :: l)) with (1 + vsize v + obj_size l)%nat.
+      rewrite obj_toks_cons. cbn [length]. rewrite app_length. specialize (H O2). specialize (IHForall O3). lia.
+Qed.
+
+Theorem parse_print : forall v, value_ok v = true -> parse_text (print_value v) = POk v [].
+Proof.
+  intros v OK. unfold parse_text, lex.
+  pose proof (lex_print v OK [] I) as L. rewrite app_nil_r in L. rewrite L.
+  change (lex_go LStart []) with (@nil tok).
+  pose proof (parse_toks v OK) as P. pose proof (vsize_bound v OK) as B.
+  rewrite app_nil_r in *. rewrite <- (app_nil_r (toks v)) at 2. apply P. lia.
 Qed.
